@@ -101,6 +101,10 @@ type Model struct {
 	FDs    map[int32]*Desc
 	Roots  []*Inode
 	nextID int
+	// ReadOnly: the mounts cannot be modified through the guest (fs.FS mounts): every
+	// mutating path call must fail and leave the tree as it is; opens that ask for
+	// writing/creating/truncating are outside the model (property C17 covers them).
+	ReadOnly bool
 	// Freed records descriptor numbers that were released by close or renumber.
 	Freed map[int32]bool
 	// Reused is set when an open returned a number that had been released before.
@@ -367,6 +371,9 @@ func (m *Model) PathOpen(dirfd int32, path string, o Open) (Expect, int32) {
 	}
 	if !o.Meaningful() {
 		return unspec("flag combination outside the model"), -1
+	}
+	if m.ReadOnly && (o.Write || o.Creat || o.Trunc || o.Append || o.Excl) {
+		return unspec("write/create open on a read-only mount"), -1
 	}
 	r := resolvePath(d.Ino, path)
 	switch {
@@ -654,6 +661,9 @@ func (m *Model) PathFilestat(dirfd int32, path string) (Expect, bool, int64) {
 
 // Mkdir models path_create_directory.
 func (m *Model) Mkdir(dirfd int32, path string) Expect {
+	if m.ReadOnly {
+		return fail("read-only mount")
+	}
 	if escapes(path) && m.FDs[dirfd] != nil && !m.FDs[dirfd].Stdio || escapes(path) && m.FDs[dirfd] == nil {
 		return failEscape
 	}
@@ -692,6 +702,9 @@ func (m *Model) Mkdir(dirfd int32, path string) Expect {
 
 // Rmdir models path_remove_directory.
 func (m *Model) Rmdir(dirfd int32, path string) Expect {
+	if m.ReadOnly {
+		return fail("read-only mount")
+	}
 	if escapes(path) && m.FDs[dirfd] != nil && !m.FDs[dirfd].Stdio || escapes(path) && m.FDs[dirfd] == nil {
 		return failEscape
 	}
@@ -728,6 +741,9 @@ func (m *Model) Rmdir(dirfd int32, path string) Expect {
 
 // Unlink models path_unlink_file.
 func (m *Model) Unlink(dirfd int32, path string) Expect {
+	if m.ReadOnly {
+		return fail("read-only mount")
+	}
 	if escapes(path) && m.FDs[dirfd] != nil && !m.FDs[dirfd].Stdio || escapes(path) && m.FDs[dirfd] == nil {
 		return failEscape
 	}
@@ -772,6 +788,9 @@ func isAncestorOrSelf(a, d *Inode) bool {
 
 // Rename models path_rename within one mount.
 func (m *Model) Rename(oldfd int32, oldPath string, newfd int32, newPath string) Expect {
+	if m.ReadOnly {
+		return fail("read-only mount")
+	}
 	if escapes(oldPath) || escapes(newPath) {
 		if a, b := m.FDs[oldfd], m.FDs[newfd]; (a == nil || !a.Stdio) && (b == nil || !b.Stdio) {
 			return failEscape
